@@ -132,6 +132,15 @@ def conversion_jobs(ctx, g, rnd):
                 cases.append((val * 64 + m, int(T[0]), T[1]))
     jobs.append(("convert:hex", cases, "flat_map (fun p => enc (literal_int (LHex (p1 p mod 64) (p1 p / 64)) (mk_ity (negb (p2 p =? 0)) (p3 p)))) " + triples(cases),
                  lambda c: real_lit_int("0x" + (c[0] // 64).to_bytes(c[0] % 64, "big").hex(), BytesM_T(c[0] % 64), (bool(c[1]), c[2])), "direct"))
+    # the same numbers spelled as b".." and x".." literals (Bytes / HexBytes nodes of type Bytes[m]): same model (the
+    # value is the big-endian number of the m bytes, sign-extended from 8m bits into signed types)
+    from vyper.semantics.types import BytesT
+    blit = lambda b: 'b"' + "".join(f"\\x{c:02x}" for c in b) + '"'  # noqa
+    sub = cases if ctx.tier != "quick" else cases[::3] + [c for c in cases if c[0] % 64 <= 2 and c[1]]
+    jobs.append(("convert:bytes-literal", sub, "flat_map (fun p => enc (literal_int (LHex (p1 p mod 64) (p1 p / 64)) (mk_ity (negb (p2 p =? 0)) (p3 p)))) " + triples(sub),
+                 lambda c: real_lit_int(blit((c[0] // 64).to_bytes(c[0] % 64, "big")), BytesT(c[0] % 64), (bool(c[1]), c[2])), "direct"))
+    jobs.append(("convert:hexbytes-literal", sub, "flat_map (fun p => enc (literal_int (LHex (p1 p mod 64) (p1 p / 64)) (mk_ity (negb (p2 p =? 0)) (p3 p)))) " + triples(sub),
+                 lambda c: real_lit_int('x"' + (c[0] // 64).to_bytes(c[0] % 64, "big").hex() + '"', BytesT(c[0] % 64), (bool(c[1]), c[2])), "direct"))
     cases = [(b, int(T[0]), T[1]) for T in tys for b in (0, 1)]
     jobs.append(("convert:bool", cases, "flat_map (fun p => enc (literal_int (LBool (negb (p1 p =? 0))) (mk_ity (negb (p2 p =? 0)) (p3 p)))) " + triples(cases),
                  lambda c: real_lit_int("True" if c[0] else "False", BoolT(), (bool(c[1]), c[2])), "direct"))
@@ -707,6 +716,135 @@ def make_round4_probes(ctx):
     return probes
 
 
+# ---- round 5: the KIND of the literal as a dimension of every conversion probe
+KIND_TARGETS = ["int8", "int16", "int64", "int128", "int256", "uint8", "uint16", "uint256", "decimal", "bool", "bytes1", "bytes4", "bytes32",
+                "address", "String[32]", "Bytes[32]"]
+
+
+def _blit(b):
+    return 'b"' + "".join(f"\\x{c:02x}" for c in b) + '"'
+
+
+def _kind_sources(rnd):
+    """(kind, literal text, run-time type, run-time value, tag) for every literal kind and content class"""
+    out = []
+    for n in (1, 2, 3, 8, 16, 20, 31, 32):
+        contents = {"first-bit-set": b"\x80" + b"\x00" * (n - 1), "all-ones": b"\xff" * n, "zero": b"\x00" * n, "max-positive": b"\x7f" + b"\xff" * (n - 1),
+                    "leading-zero": b"\x00" + b"\xff" * (n - 1), "ones-then-fe": b"\xff" * (n - 1) + b"\xfe",
+                    "random": bytes([rnd.randrange(128, 256)] + [rnd.randrange(256) for _ in range(n - 1)])}
+        for tag, pl in contents.items():
+            out.append(("HexBytes", f'x"{pl.hex()}"', f"Bytes[{n}]", pl, f"{tag}/{n}"))
+            out.append(("Bytes", _blit(pl), f"Bytes[{n}]", pl, f"{tag}/{n}"))
+            if n != 20:  # a 20-byte 0x literal is an address literal
+                out.append(("Hex", "0x" + pl.hex(), f"bytes{n}", pl, f"{tag}/{n}"))
+    out.append(("HexBytes", 'x""', "Bytes[1]", b"", "empty/0"))
+    out.append(("Bytes", 'b""', "Bytes[1]", b"", "empty/0"))
+    for v in (0, 1, -1, 127, 128, -128, -129, 255, 256, 2**127, 2**255 - 1, 2**255, -(2**255), 2**256 - 1, 2**160 - 1, 2**160):
+        out.append(("Int", str(v), "int256" if v < 0 else "uint256", v, f"int/{v.bit_length()}"))
+    D = 10**10
+    for V in (0, 15 * D // 10, -15 * D // 10, 256 * D - 1, 256 * D, -5 * D // 10, 128 * D - 1, -128 * D - D + 1, -129 * D, 2**167 - 1, -(2**167), 1):
+        out.append(("Decimal", P.dec_lit(V).strip("()") if V >= 0 else P.dec_lit(V), "decimal", V, "dec"))
+    for st in ("", "a", "abc", "z" * 32, "\\x80"[:0] + "~" * 31):
+        out.append(("Str", '"' + st + '"', f"String[{max(1, len(st))}]", st, f"str/{len(st)}"))
+    for b in (True, False):
+        out.append(("NameConstant", str(b), "bool", b, "bool"))
+    return out
+
+
+def make_literal_kind_probes(ctx, full=False):
+    """convert(<literal of every kind>, <every target kind>): the literal written directly or as a named constant (folded) against the
+    same value arriving in calldata / copied to memory / copied to storage (run time).  quick: a seeded sample that always contains,
+    for every bytes-like kind, first-bit-set and all-ones contents into wider signed integers (both spellings)."""
+    rnd = ctx.rng("litkind")
+    srcs = _kind_sources(rnd)
+    RT = [("calldata", "convert(x0, {T})"), ("memory", " @@ y: {A} = x0 @@ convert(y, {T})"), ("storage", "s{{n}}: {A} @@ self.s{{n}} = x0 @@ convert(self.s{{n}}, {T})")]
+    probes, must = [], []
+    j = 0
+    for kind, txt, at, val, tag in srcs:
+        for T in KIND_TARGETS:
+            if T == at:
+                continue
+            for spelled in ("literal", "constant"):
+                for where, tmpl in RT:
+                    if not full and ctx.tier == "quick" and (j + len(spelled)) % 3 != RT.index((where, tmpl)):
+                        continue  # quick: one run-time location per (source, target, spelling), rotating
+                    rt = tmpl.format(T=T, A=at)
+                    if spelled == "literal":
+                        pr = P.Probe("convkind", None, (kind, tag, T, spelled, where), f"convert({txt}, {T})", [at], rt, (val,), T)
+                    else:
+                        pr = P.Probe("convkind", None, (kind, tag, T, spelled, where), f"convert(K{{i}}, {T})", [at], rt, (val,), T,
+                                     pre=f"K{{i}}: constant({at}) = {txt}\n")
+                    probes.append(pr)
+                    if kind in ("HexBytes", "Bytes", "Hex") and tag.split("/")[0] in ("first-bit-set", "all-ones") and T in ("int16", "int64", "int256", "decimal") \
+                            and tag.split("/")[1] in ("1", "2", "3"):
+                        must.append(pr)
+            j += 1
+    if full or ctx.tier != "quick":
+        if not full and len(probes) > 2500:
+            keep = set(map(id, must))
+            probes = must + [p for p in rnd.sample(probes, 2500) if id(p) not in keep]
+        return probes
+    keep = set(map(id, must))
+    rest = [p for p in probes if id(p) not in keep]
+    return must + rnd.sample(rest, min(len(rest), 110))
+
+
+def literal_position_probes(ctx):
+    """Parse-level: a literal's AST value must be the value its source text denotes, at every syntactic position -- after the
+    `extcall` / `staticcall` / `log` keywords (which the pre-parser rewrites, shifting columns), followed by nothing / space /
+    operator / parenthesis / comma / comment, in default arguments, event arguments, subscripts, loop headers, asserts.
+    Returns the number of literals compared."""
+    import decimal
+    from vyper import ast as vy_ast
+    from vyper.exceptions import CompilerPanic, VyperException
+    rnd = ctx.rng("litpos")
+    lits = [("Int", "1234567"), ("Int", "7"), ("Decimal", "12.345"), ("Decimal", "1.5"), ("Decimal", "0.0000000001"), ("Hex", "0xdeadbeef"),
+            ("Hex", "0x" + "ab" * 32), ("Str", '"hello world"'), ("Bytes", 'b"\\x01\\xfe"'), ("HexBytes", 'x"c0ffee"'),
+            ("Int", str(rnd.randrange(10**6, 10**30))), ("Decimal", f"{rnd.randrange(10, 10**6)}.{rnd.randrange(1, 10**6):06d}")]
+    followers = ["", " ", " + y", "+y", " * (y)", "   "]
+    templates = ["    a: uint256 = extcall Foo(t).bar({L}{F})", "    a: uint256 = staticcall Foo(t).baz({L}{F}, 1)", "    log Ev(x={L}{F}, y=2)",
+                 "    log Ev({L}{F}, 5)  # c", "    a: uint256 = g({L}{F})", "    extcall Foo(t).bar({L}{F})", "    a: uint256 = (staticcall Foo(t).baz(1, {L}{F}))",
+                 "    a: uint256 = (extcall Foo(t).bar(w[{L}{F}]))", "    return extcall Foo(t).bar({L}{F})", "    log Ev({L}{F})",
+                 "    assert staticcall Foo(t).baz({L}{F}, 2) == {L}, \"m\"", "    for i: uint256 in range(extcall Foo(t).bar({L}{F}), bound=8):\n        pass",
+                 "    a: uint256 = extcall Foo(t).bar(extcall Foo(t).bar({L}{F}) + {L})", "    a: uint256 = {L}{F}"]
+    kinds = (vy_ast.Int, vy_ast.Decimal, vy_ast.Hex, vy_ast.Str, vy_ast.Bytes, vy_ast.HexBytes)
+    n = 0
+    bad = []
+    for ti, tmpl in enumerate(templates):
+        for li, (kind, L) in enumerate(lits):
+            for fi, F in enumerate(followers):
+                if ctx.tier == "quick" and (ti + li + fi + ctx.seed) % 2 and not (kind == "Decimal" and F in (" + y", " ")):
+                    continue
+                src = f"def f(t: address, y: uint256, z: uint256 = {L}):\n" + tmpl.replace("{L}", L).replace("{F}", F) + f"\n    b: uint256 = {L}\n"
+                count = tmpl.count("{L}") + 2
+                exp = {"Int": lambda: int(L), "Decimal": lambda: decimal.Decimal(L), "Hex": lambda: L, "Str": lambda: L[1:-1],
+                       "Bytes": lambda: bytes([1, 254]), "HexBytes": lambda: bytes.fromhex(L[2:-1])}[kind]()
+                try:
+                    with warnings.catch_warnings():
+                        warnings.simplefilter("ignore")
+                        tree = vy_ast.parse_to_ast(src)
+                    nodes = sorted(tree.get_descendants(kinds), key=lambda nd: (nd.lineno, nd.col_offset))
+                    seen = [nd.value for nd in nodes if type(nd).__name__ == kind]
+                    # the templates' own constants (1, 2, 5, 8, "m") are not the literal under test
+                    seen = [v for v in seen if v == exp or not (v in (1, 2, 5, 8) or v == "m")]
+                    n += count
+                    if len(seen) != count or any(v != exp for v in seen):
+                        bad.append({"source": src, "literal": L, "kind": kind, "values_in_ast": [str(v) for v in seen], "expected_occurrences": count})
+                except Exception as e:
+                    if isinstance(e, VyperException) and not isinstance(e, CompilerPanic):
+                        ctx.corr["litpos_rejected"] = ctx.corr.get("litpos_rejected", 0) + 1
+                        ctx.corr.setdefault("litpos_rejected_sample", f"{type(e).__name__}: {src}")
+                        continue
+                    bad.append({"source": src, "literal": L, "kind": kind, "exception": f"{type(e).__name__}: {str(e)[:200]}"})
+    for b in bad[:5]:
+        ctx.violation("failing-input", f"the AST value of a {b['kind']} literal differs from its source text (or the parser crashes on it)",
+                      dict(b, how="vyper.ast.parse_to_ast(source); compare the .value of the literal nodes with the literal text"),
+                      key=f"c17:literal-position:{b['kind']}")
+    ctx.corr["literal_position_literals"] = n
+    ctx.corr["literal_position_bad"] = len(bad)
+    return n
+
+
 def model_exprs(p):
     """Coq expression giving [fold flag; fold value; spec flag; spec value] for probes with a model, else None."""
     T = p.T
@@ -957,6 +1095,8 @@ def constant_probes(ctx, cfg):
 def search(ctx, forms, cfgs):
     """Search: paired probes for the named forms on the dense boundary grid of every integer type."""
     probes = make_probes(ctx, ALL_TYPES, 30, only_ops=set(forms), salt="search")
+    if any(str(f).startswith("convert") or f == "convkind" for f in forms):
+        probes += make_literal_kind_probes(ctx, full=True)
     ctx.log(f"search: {len(probes)} probes for {sorted(forms)} on all {len(ALL_TYPES)} integer types")
     n, nf, _ = run_probes(ctx, probes, cfgs[:2], "s", with_model=False)
     return n, nf
@@ -1002,7 +1142,8 @@ def run(ctx):
             model_ok = False
     ctx.corr["phase_seconds"]["model_tie"] = round(_t.time() - _ta, 1)
     # paired probes: the property's own observation (independent of the Coq model)
-    probes = make_round4_probes(ctx) + make_probes(ctx, types, npairs) + make_misc_probes(ctx, npairs) + make_constant_probes(ctx, (types[:5] if ctx.tier == "quick" else types) + [(True, 16)], npairs)
+    total += literal_position_probes(ctx)
+    probes = make_literal_kind_probes(ctx) + make_round4_probes(ctx) + make_probes(ctx, types, npairs) + make_misc_probes(ctx, npairs) + make_constant_probes(ctx, (types[:5] if ctx.tier == "quick" else types) + [(True, 16)], npairs)
     n, nf, mism = run_probes(ctx, probes, cfgs, "q", with_model=model_ok)
     total += n
     failing += nf
